@@ -120,6 +120,12 @@ class Chop:
         if self.total_expansion is not None:
             self.total_expansion = 1 / self.total_expansion
 
+        # the preserved size sits on the other end now
+        if self.preserve == "start_size":
+            self.preserve = "end_size"
+        elif self.preserve == "end_size":
+            self.preserve = "start_size"
+
     def copy_preserving(self, inverted: bool = False) -> "Chop":
         """Creates a copy of this Chop with equal count but
         sets other parameters from current data so that
